@@ -33,6 +33,13 @@ Fixpoint nodupb (l : list id) : bool :=
   | x :: tl => negb (memp x tl) && nodupb tl
   end.
 
+(* len(set(l)) is computed on the list without repetitions *)
+Fixpoint dedup (l : list id) : list id :=
+  match l with
+  | [] => []
+  | x :: tl => if memp x tl then dedup tl else x :: dedup tl
+  end.
+
 (* tuple.index / list.index *)
 Fixpoint index_of (x : id) (l : list id) : option nat :=
   match l with
@@ -156,6 +163,9 @@ Section Algebra.
   (* rvs[name].get_variance(name) *)
   Definition variance (r : coll) (x : id) : option E :=
     match lookup r x with Some (_, d) => dvariance d x | None => None end.
+  (* rvs[name].level *)
+  Definition level (r : coll) (x : id) : option id :=
+    match lookup r x with Some (_, d) => Some (dlevel d) | None => None end.
 
   (* ---- RandomVariables.unjoin ------------------------------------------------------------------
      for every joint distribution containing one of [inds]: the named variables become
@@ -235,7 +245,7 @@ Section Algebra.
     | Joint ns _ _ _ =>
         if (length ind =? 0) || (length ns <? length ind) then Err KeyError
         else if negb (forallb (fun x => memp x ns) ind) then Err KeyError
-        else if length (normp ind) =? length ns then Ok d
+        else if length (dedup ind) =? length ns then Ok d
         else Ok (marginal d (positions (fun n => memp n ind) ns))
     end.
 
@@ -334,6 +344,10 @@ Section Algebra.
     if negb (memp (dlevel d) eta_levels) && negb (memp (dlevel d) epsilon_levels)
     then Err ValueError else Ok (r ++ [d]).
   Definition add_coll (r r2 : coll) : coll := r ++ r2.      (* also rvs + [dists] (no level check) *)
+  (* dist + rvs  (__radd__) *)
+  Definition radd_dist (r : coll) (d : dist) : res coll :=
+    if negb (memp (dlevel d) eta_levels) && negb (memp (dlevel d) epsilon_levels)
+    then Err ValueError else Ok (d :: r).
 
   (* ---- etas / epsilons / iiv / iov ---------------------------------------------------------- *)
   Definition with_levels (ls : list id) (r : coll) : coll := filter (fun d => memp (dlevel d) ls) r.
